@@ -45,4 +45,5 @@ MUTANTS = [
     m("c17-search-return-condition-inverted", "R3", "                if (step_size_too_big and delta_h <= delta_h_threshold) or (\n                    not step_size_too_big and delta_h > delta_h_threshold\n                ):", "                if (step_size_too_big and delta_h > delta_h_threshold) or (\n                    not step_size_too_big and delta_h <= delta_h_threshold\n                ):"),
     m("c17-search-direction-reset-every-iteration", "R3", "                if s == 0 or np.isnan(delta_h):\n                    step_size_too_big", "                if True:\n                    step_size_too_big"),
     m("c17-twin-search-isnan-first", None, "                if s == 0 or np.isnan(delta_h):", "                if np.isnan(delta_h) or s == 0:", twin=True),
+    {"id": "c17-undo-F17", "prop": "C17", "rule": "R5", "edits": [{"file": A, "old": "            chain_state.pos = chain_state.pos\n            chain_state.mom = transition.system.sample_momentum(chain_state, rng)\n\n    def _regularize_covar_est", "new": "            chain_state.mom = transition.system.sample_momentum(chain_state, rng)\n\n    def _regularize_covar_est"}]},
 ]
